@@ -92,6 +92,10 @@ def main(argv):
                     unsup += 1
                 elif impl != model:
                     corr_fail.append(rec)
+                if impl.startswith("PANIC"):
+                    rec["kind"] = "the infix expander panics on this block (malformed input must give an error, never a crash)"
+                    prop_fail.append(rec)
+                    continue
                 if spec != "-" and impl != spec:
                     # no known findings are registered for C06: every failure is a violation
                     prop_fail.append(rec)
@@ -148,7 +152,8 @@ def main(argv):
     if prop_fail:
         prop_fail.sort(key=size)
         for f in prop_fail[:3]:
-            f["kind"] = "the statement list of the real Pratt parser differs from the specification (split at the weakest operator of the documented table)"
+            f.setdefault("kind", "") 
+            f["kind"] = f["kind"] or "the statement list of the real Pratt parser differs from the specification (split at the weakest operator of the documented table)"
             f["replay"] = "evaluate (infixExpand <text>) in a fresh interpreter; or bin/check C06 --replay <this file>"
             f["failing_cases_total"] = len(prop_fail)
             c.violation(f)
